@@ -56,6 +56,28 @@ func FillResourceStore(a *App, store db.Db) (skipped []string, err error) {
 		put(db.DATATYPE_BIN, nil, n, code)
 		put(db.DATATYPE_TEMPLATE, nil, n, []byte(a.Nodes[n].Template))
 	}
+	// static loads: functions whose content lives in the store, with translations
+	syms := make([]string, 0, len(a.Funcs))
+	for n, f := range a.Funcs {
+		if f.Kind == "static" {
+			syms = append(syms, n)
+		}
+	}
+	sort.Strings(syms)
+	for _, n := range syms {
+		f := a.Funcs[n]
+		put(db.DATATYPE_STATICLOAD, nil, n, []byte(f.Fixed))
+		codes := make([]string, 0, len(f.Trans))
+		for code := range f.Trans {
+			codes = append(codes, code)
+		}
+		sort.Strings(codes)
+		for _, code := range codes {
+			if ln, lerr := lang.LanguageFromCode(code); lerr == nil && ln.Code == code {
+				put(db.DATATYPE_STATICLOAD, &ln, n, []byte(f.Trans[code]))
+			}
+		}
+	}
 	labels := make([]string, 0, len(a.Labels))
 	for l := range a.Labels {
 		labels = append(labels, l)
@@ -128,15 +150,15 @@ func (d *DbStack) resource() (*resource.DbResource, db.Db, error) {
 		return nil, nil, err
 	}
 	h.SetLock(db.DATATYPE_BIN|db.DATATYPE_TEMPLATE|db.DATATYPE_MENU|db.DATATYPE_STATICLOAD, true)
-	rs := resource.NewDbResource(h)
+	rs := resource.NewDbResource(h).With(db.DATATYPE_STATICLOAD)
 	names := make([]string, 0, len(d.A.Funcs))
 	for n := range d.A.Funcs {
 		names = append(names, n)
 	}
 	sort.Strings(names)
 	for _, n := range names {
-		if n == "_first" {
-			continue
+		if n == "_first" || d.A.Funcs[n].Kind == "static" {
+			continue // static loads are resolved from the store
 		}
 		fn, _ := d.Res.FuncFor(context.Background(), n)
 		rs.AddLocalFunc(n, fn)
